@@ -149,6 +149,28 @@ theorem Mid.foa {m0 m : Mgr} {x : Nat} {pend : Nat → Prop} (hI : Inv m0) (hM :
     have : m.minFree ≠ k := by intro e; rw [← e, hM.free] at hk; cases hk
     simp [this, hk]
 
+/-- every stored edge points to a node, also in the middle of the swap -/
+theorem Mid.children_mem {m0 m : Mgr} {x : Nat} {pend : Nat → Prop} (hI : Inv m0) (hM : Mid m0 m x pend)
+    (hx : x + 1 < m0.nvars) {k : Nat} {n' : Nd} (hk : m.tbl.node? k = some n') :
+    m.tbl.Mem n'.lo ∧ m.tbl.Mem n'.hi := by
+  have hW := hI.wf.toWF
+  by_cases hp : pend k
+  · obtain ⟨n, hn0, hn, _⟩ := hM.pend_node hp
+    rw [hn] at hk; cases hk
+    exact ⟨hM.mem0 (hW.lo_mem _ _ hn0), hM.mem0 (hW.hi_mem _ _ hn0)⟩
+  · rcases hM.rel.classify hk hp with ⟨_, _, _, mlo, mhi, _⟩ | ⟨n, hn, hc⟩
+    · exact ⟨hM.mem0 mlo, hM.mem0 mhi⟩
+    · have mlo := hW.lo_mem _ _ hn
+      have mhi := hW.hi_mem _ _ hn
+      rcases hc with ⟨_, _, e⟩ | ⟨_, e⟩ | ⟨_, _, _, e⟩ | ⟨h1, _, p, q, e, hp', hq'⟩
+      · subst e; exact ⟨hM.mem0 mlo, hM.mem0 mhi⟩
+      · subst e; exact ⟨hM.mem0 mlo, hM.mem0 mhi⟩
+      · subst e; exact ⟨hM.mem0 mlo, hM.mem0 mhi⟩
+      · subst e
+        obtain ⟨glo, ghi⟩ := child_lvl_ge hW hn h1
+        obtain ⟨mv0, mv1, _⟩ := cof_spec m0.tbl hW (x + 1) n.lo mlo glo hx
+        exact ⟨hp'.mem (hM.mem0 mv0), hq'.mem (hM.mem0 mv1)⟩
+
 /-! ### one iteration of the third loop -/
 
 theorem moveDepStep_spec {m0 m : Mgr} {x : Nat} {pend : Nat → Prop} (hI : Inv m0)
@@ -159,7 +181,8 @@ theorem moveDepStep_spec {m0 m : Mgr} {x : Nat} {pend : Nat → Prop} (hI : Inv 
     ∃ fr m', moveDepStep x (x + 1) u n.lo n.hi m = (.ok fr, m') ∧
       Mid m0 m' x (fun k => pend k ∧ k ≠ u) ∧
       (∀ k nk, nk.lvl = x + 1 → m.tbl.node? k = some nk → m'.tbl.node? k = some nk) ∧
-      (∀ r ∈ fr, ∃ nr, m'.tbl.node? r = some nr ∧ nr.lvl = x + 1) := by
+      (∀ r ∈ fr, ∃ nr, m'.tbl.node? r = some nr ∧ nr.lvl = x + 1) ∧
+      (∀ ext, RefExact m ext → RefExact m' ext) := by
   have hW := hI.wf.toWF
   have hx' : x + 1 < m0.tbl.nvars := hx
   have mlo := hW.lo_mem _ _ hn
@@ -279,7 +302,7 @@ theorem moveDepStep_spec {m0 m : Mgr} {x : Nat} {pend : Nat → Prop} (hI : Inv 
   have htb : mb.tbl = m.tbl := hr2.tbl.trans hr1.tbl
   have htg : mg.tbl = me.tbl := hr4.tbl.trans hr3.tbl
   refine ⟨(if md.tbl.levelOf p = x + 1 then [p.natAbs] else []) ++
-    (if md.tbl.levelOf q = x + 1 then [q.natAbs] else []), mg, ?_, hMg, ?_, ?_⟩
+    (if md.tbl.levelOf q = x + 1 then [q.natAbs] else []), mg, ?_, hMg, ?_, ?_, ?_⟩
   · unfold moveDepStep
     rw [M.bind_ok (M.get_eq m)]
     simp only [hcur]
@@ -321,6 +344,70 @@ theorem moveDepStep_spec {m0 m : Mgr} {x : Nat} {pend : Nat → Prop} (hI : Inv 
       · next h => rw [List.mem_singleton.mp hr]; exact key q mq h
       · cases hr
 
+  · -- reference counts: exact before, exact after
+    intro ext hr
+    have hcurN : m.tbl.node? u = some n := hcur
+    have hb0 := hr.toBut
+    -- decref lo
+    have hba : RefBut ma ext (fun k => if k = n.lo.natAbs then 1 else 0) :=
+      hb0.decref n.lo (hM.mem0 mlo) (by have := indeg_pos_of_lo hcurN; show 0 + 1 ≤ _; omega) hd1
+        (fun k => by simp)
+    -- decref hi
+    have hbb : RefBut mb ext (fun k => edgeCount n k) := by
+      refine hba.decref n.hi (hMa.mem0 mhi) ?_ hd2 (fun k => ?_)
+      · have := edgeCount_le_indeg hcurN n.hi.natAbs
+        rw [hr1.tbl]
+        simp only [edgeCount, if_true] at this
+        by_cases e : n.hi.natAbs = n.lo.natAbs
+        · simp [e] at this ⊢; omega
+        · have e' : ¬ n.lo.natAbs = n.hi.natAbs := fun h => e h.symm
+          simp [e, e'] at this ⊢; omega
+      · simp only [edgeCount]
+        repeat' split
+        all_goals omega
+    -- the two find_or_adds
+    have hfreeN : ∀ {mm : Mgr}, Mid m0 mm x pend → edgeCount n mm.minFree = 0 := by
+      intro mm hMM
+      have a : mm.minFree ≠ n.lo.natAbs := by
+        intro e
+        rcases hMM.mem0 mlo with h1 | h1
+        · have := hMM.freeGe; omega
+        · rw [← e, hMM.free] at h1; simp at h1
+      have b : mm.minFree ≠ n.hi.natAbs := by
+        intro e
+        rcases hMM.mem0 mhi with h1 | h1
+        · have := hMM.freeGe; omega
+        · rw [← e, hMM.free] at h1; simp at h1
+      have a' : ¬ n.lo.natAbs = mm.minFree := fun e => a e.symm
+      have b' : ¬ n.hi.natAbs = mm.minFree := fun e => b e.symm
+      simp [edgeCount, a', b']
+    have hbc : RefBut mc ext (fun k => edgeCount n k) := by
+      have := hbb.foa (x + 1) (cof m0.tbl (x + 1) n.lo).1 (cof m0.tbl (x + 1) n.hi).1
+        (fun k nk hk => hMb.children_mem hI hx hk) (hfreeN hMb)
+      rw [hfp] at this; exact this
+    have hbd : RefBut md ext (fun k => edgeCount n k) := by
+      have := hbc.foa (x + 1) (cof m0.tbl (x + 1) n.lo).2 (cof m0.tbl (x + 1) n.hi).2
+        (fun k nk hk => hMc.children_mem hI hx hk) (hfreeN hMc)
+      rw [hfq] at this; exact this
+    -- setNode
+    have hbe : RefBut me ext (fun k => edgeCount (⟨x, p, q⟩ : Nd) k) :=
+      hbd.setNode hcurd ⟨x, p, q⟩ (by rw [hme]) (by rw [hme]) (fun k => by omega)
+    -- the two increfs
+    have hbf : RefBut mf ext (fun k => if q.natAbs = k then 1 else 0) :=
+      hbe.incref p (hmemE hp' (hMd.mem0 mv0)) hi3 (fun k => by
+        simp only [edgeCount]
+        by_cases e1 : k = p.natAbs
+        · simp [e1]; omega
+        · have : ¬ p.natAbs = k := fun h => e1 h.symm
+          simp [e1, this])
+    have hbg : RefBut mg ext (fun _ => 0) :=
+      hbf.incref q (by rw [hr3.tbl]; exact hmemE hq (hMd.mem0 mv1)) hi4 (fun k => by
+        by_cases e1 : k = q.natAbs
+        · simp [e1]
+        · have : ¬ q.natAbs = k := fun h => e1 h.symm
+          simp [e1, this])
+    exact hbg.toExact (fun _ => rfl)
+
 /-! ### the third loop -/
 
 theorem mem_pushNew_or {l : List Nat} {a r : Nat} (h : r ∈ pushNew l a) : r ∈ l ∨ r = a := by
@@ -342,14 +429,15 @@ theorem moveDep_spec {m0 : Mgr} (hI : Inv m0) (hoff : m0.ctx = false ∨ m0.last
       Mid m0 m' x (fun k => pend k ∧ k ∉ l) ∧
       (∀ k nk, nk.lvl = x + 1 → m.tbl.node? k = some nk → m'.tbl.node? k = some nk) ∧
       (∀ r ∈ xf, ∃ nr, m'.tbl.node? r = some nr ∧ nr.lvl = x + 1) ∧
-      (∀ r ∈ g, ∃ c : Int, m0.tbl.Mem c ∧ x + 1 ≤ m0.tbl.levelOf c ∧ c.natAbs = r) := by
+      (∀ r ∈ g, ∃ c : Int, m0.tbl.Mem c ∧ x + 1 ≤ m0.tbl.levelOf c ∧ c.natAbs = r) ∧
+      (∀ ext, RefExact m ext → RefExact m' ext) := by
   have hW := hI.wf.toWF
   intro l
   induction l with
   | nil =>
     intro m pend hM _ _ _ _ _ _
     exact ⟨[], [], m, rfl, hM.congr (fun k => by simp), fun _ _ _ h => h,
-      fun _ h => absurd h List.not_mem_nil, fun _ h => absurd h List.not_mem_nil⟩
+      fun _ h => absurd h List.not_mem_nil, fun _ h => absurd h List.not_mem_nil, fun _ h => h⟩
   | cons u rest ih =>
     intro m pend hM hnd hL hl hdp hip hY
     rw [List.nodup_cons] at hnd
@@ -367,15 +455,16 @@ theorem moveDep_spec {m0 : Mgr} (hI : Inv m0) (hoff : m0.ctx = false ∨ m0.last
       obtain ⟨n', hn', _, hd'⟩ := hdep
       rw [hn] at hn'; cases hn'
       have hpu := hdp u List.mem_cons_self ⟨n, hn, hlx, hd'⟩
-      obtain ⟨fr, m1, hstep, hM1, hkeep1, hfr⟩ := moveDepStep_spec hI hoff hM hx hY hn hlx hd' hpu
-      obtain ⟨g, xf, m', hrun, hM', hkeep', hxf, hg⟩ := ih m1 (fun k => pend k ∧ k ≠ u) hM1 hnd.2
+      obtain ⟨fr, m1, hstep, hM1, hkeep1, hfr, hR1⟩ := moveDepStep_spec hI hoff hM hx hY hn hlx hd' hpu
+      obtain ⟨g, xf, m', hrun, hM', hkeep', hxf, hg, hR'⟩ := ih m1 (fun k => pend k ∧ k ≠ u) hM1 hnd.2
         (fun k hk => hL k (List.mem_cons_of_mem _ hk))
         (fun k hk => hl k (List.mem_cons_of_mem _ hk))
         (fun k hk hd => ⟨hdp k (List.mem_cons_of_mem _ hk) hd, fun e => hnd.1 (e ▸ hk)⟩)
         (fun k hk hd hp => hip k (List.mem_cons_of_mem _ hk) hd hp.1)
         (fun k nk hnk h1 hp => hY k nk hnk h1 hp.1)
       refine ⟨pushNew (pushNew g n.lo.natAbs) n.hi.natAbs, fr ++ xf, m', ?_,
-        hM'.congr (fun k => by simp only [List.mem_cons, not_or, and_assoc, ne_eq]), ?_, ?_, ?_⟩
+        hM'.congr (fun k => by simp only [List.mem_cons, not_or, and_assoc, ne_eq]), ?_, ?_, ?_,
+        fun ext hr => hR' ext (hR1 ext hr)⟩
       · rw [M.bind_ok hstep, M.bind_ok hrun]; rfl
       · intro k nk h1 hk; exact hkeep' k nk h1 (hkeep1 k nk h1 hk)
       · intro r hr
@@ -393,12 +482,12 @@ theorem moveDep_spec {m0 : Mgr} (hI : Inv m0) (hoff : m0.ctx = false ∨ m0.last
     · -- relabelled by the second loop: skipped
       rw [if_pos (hcont.mpr hdep)]
       have hnp := hip u List.mem_cons_self hdep
-      obtain ⟨g, xf, m', hrun, hM', hkeep', hxf, hg⟩ := ih m pend hM hnd.2
+      obtain ⟨g, xf, m', hrun, hM', hkeep', hxf, hg, hR'⟩ := ih m pend hM hnd.2
         (fun k hk => hL k (List.mem_cons_of_mem _ hk))
         (fun k hk => hl k (List.mem_cons_of_mem _ hk))
         (fun k hk hd => hdp k (List.mem_cons_of_mem _ hk) hd)
         (fun k hk hd => hip k (List.mem_cons_of_mem _ hk) hd) hY
-      refine ⟨g, xf, m', hrun, hM'.congr ?_, hkeep', hxf, hg⟩
+      refine ⟨g, xf, m', hrun, hM'.congr ?_, hkeep', hxf, hg, hR'⟩
       intro k
       simp only [List.mem_cons, not_or]
       constructor
@@ -419,32 +508,34 @@ theorem swapNodes_spec (m : Mgr) (hI : Inv m) (hoff : m.ctx = false ∨ m.lastLe
         (.ok (ox.map (trip m.tbl), oy.map (trip m.tbl), g, xf), m') ∧
       Mid m m' x (fun _ => False) ∧
       (∀ r ∈ xf, ∃ nr, m'.tbl.node? r = some nr ∧ nr.lvl = x + 1) ∧
-      (∀ r ∈ g, ∃ c : Int, m.tbl.Mem c ∧ x + 1 ≤ m.tbl.levelOf c ∧ c.natAbs = r) := by
-  obtain ⟨m1, m2, hp1, hp2, ht2, hM2⟩ := popLevels_spec m hI x ox oy hox hoy
+      (∀ r ∈ g, ∃ c : Int, m.tbl.Mem c ∧ x + 1 ≤ m.tbl.levelOf c ∧ c.natAbs = r) ∧
+      (∀ ext, RefExact m ext → RefExact m' ext) := by
+  obtain ⟨m1, m2, hp1, hp2, ht2, hr2, hM2⟩ := popLevels_spec m hI x ox oy hox hoy
   have hlvl : ∀ u, u ∈ ox → u ∈ oy → False := by
     intro u h1 h2
     obtain ⟨n, hn, hl⟩ := (hox.mem u).mp h1
     obtain ⟨n', hn', hl'⟩ := (hoy.mem u).mp h2
     rw [hn] at hn'; cases hn'; omega
-  obtain ⟨m3, hup, hM3, hF3⟩ := moveUp_spec m hI x oy m2 _ hM2 hoy.nodup
+  obtain ⟨m3, hup, hM3, hF3, hR3⟩ := moveUp_spec m hI x oy m2 _ hM2 hoy.nodup
     (fun u hu => by
       obtain ⟨n, hn, hl⟩ := (hoy.mem u).mp hu
       exact ⟨⟨n, hn, Or.inr hl⟩, n, hn, hl⟩)
     (fun k n hn hl => ⟨n, hn, Or.inl hl⟩)
     (fun k hk => by rw [ht2]; exact hk)
-  obtain ⟨done, m4, hind, hdone, hM4, hF4⟩ := moveIndep_spec m hI x hx ox m3 _ hM3 hox.nodup
+  obtain ⟨done, m4, hind, hdone, hM4, hF4, hR4⟩ := moveIndep_spec m hI x hx ox m3 _ hM3 hox.nodup
     (fun u hu => by
       obtain ⟨n, hn, hl⟩ := (hox.mem u).mp hu
       exact ⟨⟨⟨n, hn, Or.inl hl⟩, fun h => hlvl u hu h⟩, n, hn, hl⟩)
     (fun k n hn hl hp => hp.2 ((hoy.mem k).mpr ⟨n, hn, hl⟩)) hF3
-  obtain ⟨g, xf, m5, hdp, hM5, _, hxf, hg⟩ := moveDep_spec hI hoff hx done ox hdone ox m4 _ hM4
+  obtain ⟨g, xf, m5, hdp, hM5, _, hxf, hg, hR5⟩ := moveDep_spec hI hoff hx done ox hdone ox m4 _ hM4
     hox.nodup (fun _ h => h) (fun u hu => (hox.mem u).mp hu)
     (fun u hu hd => by
       obtain ⟨n, hn, hl⟩ := (hox.mem u).mp hu
       exact ⟨⟨⟨n, hn, Or.inl hl⟩, fun h => hlvl u hu h⟩, fun h => h.2 hd⟩)
     (fun u hu hd hp => hp.2 ⟨hu, hd⟩)
     (fun k n hn hl hp => hp.1.2 ((hoy.mem k).mpr ⟨n, hn, hl⟩))
-  refine ⟨g, xf, m5, ?_, hM5.congr ?_, hxf, hg⟩
+  refine ⟨g, xf, m5, ?_, hM5.congr ?_, hxf, hg,
+    fun ext hr => hR5 ext (hR4 ext (hR3 ext (hr.congr ht2 hr2)))⟩
   · unfold swapNodes
     rw [M.bind_ok hp1, M.bind_ok hp2, M.bind_ok hup, M.bind_ok hind, M.bind_ok hdp]
     rfl
